@@ -405,8 +405,11 @@ pub fn cap_sizes(text: &str) -> String {
 }
 
 fn spawn_child(cx: &Ctx, bin: &str, from: u64, to: u64, budget: f64) -> (Option<J>, Option<u64>, String) {
+    // AddressSanitizer reserves terabytes of address space for its shadow memory: no address-space
+    // limit in that build (its own `hard_rss_limit_mb` bounds real memory instead)
+    let limit = if std::env::var("VERIF_ASAN").is_ok() { "" } else { "ulimit -v 8388608; " };
     let cmdline = format!(
-        "ulimit -v 8388608; exec {bin} c06-child --seed {} --shard {}/{} --tier {} --budget {budget} --from {from} --to {to}",
+        "{limit}exec {bin} c06-child --seed {} --shard {}/{} --tier {} --budget {budget} --from {from} --to {to}",
         cx.seed,
         cx.shard,
         cx.nshards,
@@ -499,8 +502,9 @@ pub fn run(cx: &mut Ctx) {
         from = next;
     }
     cx.report.count("ranges_run", 1);
-    // corpus regression inputs, one child each (shard 0)
-    if cx.shard == 0 {
+    // corpus regression inputs, one child each (shard 0); not in the sanitizer build, where the
+    // huge-allocation inputs cannot be cut off by an address-space limit
+    if cx.shard == 0 && std::env::var("VERIF_ASAN").is_err() {
         for (k, (name, _)) in corpus_texts().iter().enumerate() {
             let case = CORPUS_BASE + k as u64;
             let (rep, _, status) = spawn_child(cx, &bin, case, case + 1, 120.0);
